@@ -54,6 +54,9 @@ class _Sender(object):
     def __init__(self, i):
         self.i = i
 
+    def __len__(self):
+        return 0 if self.i == 1 else 3      # sender 1 is falsy (an empty selection-like object)
+
     def __repr__(self):
         return 'S%d' % self.i
 
